@@ -246,6 +246,7 @@ def setter_calls(cfg):
     elif k in ("rr", "sdes", "bye", "custom"):
         if "padding" in cfg: c.append(("padding", f"(padding {cfg['padding']})"))
         if k == "custom" and cfg.get("some0"): c.append(("pad_style", "(pad_style some0)"))
+        if k == "custom" and "count" in cfg: c.append(("count", f"(count {cfg['count']})"))
     elif k == "unknown":
         if "padding" in cfg: c.append(("padding", f"(padding {cfg['padding']})"))
         if "count" in cfg: c.append(("count", f"(count {cfg['count']})"))
@@ -309,7 +310,7 @@ def render_(cfg, r=None, style="canon"):
             "unknown": lambda: f"(unknown {cfg['type']} {B(cfg['data'])}",
             "tfb": lambda: f"(tfb {'owned' if style == 'owned' else cfg.get('mode', 'borrowed')} {render_fci(cfg['fci'], style == 'owned', r, style == 'probe')}",
             "pfb": lambda: f"(pfb {'owned' if style == 'owned' else cfg.get('mode', 'borrowed')} {render_fci(cfg['fci'], style == 'owned', r, style == 'probe')}",
-            "custom": lambda: f"(custom {cfg['pt']} {cfg['min']} {B(cfg['body'])}"}[k]()
+            "custom": lambda: f"({'custom16' if cfg.get('mc16') else 'custom'} {cfg['pt']} {cfg['min']} {B(cfg['body'])}"}[k]()
     setters = [c for _, c in setter_calls(cfg)]
     adders = []
     if k == "bye":
@@ -332,7 +333,8 @@ def render_(cfg, r=None, style="canon"):
             if name in ("padding",):
                 decoys.append(f"(padding {r.choice([0, 4, 8, 252, 3])})")
             elif name in ("subtype", "count"):
-                decoys.append(f"({name} {r.randint(0, 40)})")
+                # the third-party writers of the harness take header counts 0..31 only
+                decoys.append(f"({name} {r.randint(0, 31 if k == 'custom' else 40)})")
             elif name in ("data",):
                 decoys.append(f"(data {B(r_bytes(r, 4 * r.randint(0, 3)))})")
             elif name in ("reason", "reason_owned"):
@@ -625,6 +627,8 @@ def cfg_custom(r, unknown_pt_only=False):
     x = r.random()
     bl = 4 * r.randint(0, 6) if x < 0.9 else r.choice([1, 2, 3, 5, 6, 7])
     c = {"k": "custom", "pt": pt, "min": r.choice(CUSTOM_MINS), "body": r_bytes(r, bl), "padding": r_padding(r)}
+    if r.random() < 0.35: c["mc16"] = True            # the family whose RtcpPacket::MAX_COUNT is 16
+    if r.random() < 0.6: c["count"] = r.choice([0, 1, 15, 16, 17, 31, r.randint(0, 31)])
     if r.random() < 0.3: c["some0"] = True     # a third-party writer whose get_padding() says Some(0)
     return c
 
@@ -800,7 +804,7 @@ def enc_fb(c):
 
 def enc_custom(c):
     body = c["body"] + bytes(max(0, c["min"] - 4 - len(c["body"]))) + trailer(c["padding"])
-    return hdr(c["pt"], 0, 4 + len(body), c["padding"] > 0) + body
+    return hdr(c["pt"], c.get("count", 0), 4 + len(body), c["padding"] > 0) + body
 
 
 def encode(c):
